@@ -8,6 +8,7 @@ import LexVerif.Proof.WriteRadixError
 import LexVerif.Proof.WriteRadixMid
 import LexVerif.Proof.WriteRadixBig
 import LexVerif.Proof.WriteRadixSmall
+import LexVerif.Proof.WriteRadixFix
 import Mathlib.Tactic.SplitIfs
 /-!
 # C07 — generic-radix float output
@@ -124,7 +125,7 @@ open LexVerif.Model LexVerif.Model.WriteRadix LexVerif.Model.WriteRadixInt
 open LexVerif.Proof.WriteRadixF LexVerif.Proof.WriteRadixWF LexVerif.Proof.WriteRadixTerm
 open LexVerif.Proof.WriteRadixTermInt LexVerif.Proof.WriteRadixFrac LexVerif.Proof.WriteRadixInteger
 open LexVerif.Proof.WriteRadixRound LexVerif.Proof.WriteRadixError LexVerif.Proof.WriteRadixMid
-open LexVerif.Proof.WriteRadixBig LexVerif.Proof.WriteRadixSmall
+open LexVerif.Proof.WriteRadixBig LexVerif.Proof.WriteRadixSmall LexVerif.Proof.WriteRadixFix
 open LexVerif.Model.WriteInt (Res)
 
 /-- binary32 or binary64 (radix.rs runs in the float's own type) -/
@@ -154,7 +155,7 @@ theorem radix_wellformed {f : Fmt} (hf : StdFmt f) {r : Nat} (hr : r ∈ generic
     (hw : WriteRadix.writeFloat true feats f fmt o bits len = .ok text) :
     WellFormed r fmt.exponentRadix o.dp o.exp text := by
   obtain ⟨h3, h36⟩ := genericRadices_bounds r hr
-  unfold WriteRadix.writeFloat at hw
+  rw [writeFloat_old] at hw
   rw [hfr] at hw
   cases hg : generate true f r bits with
   | ok g =>
@@ -187,7 +188,7 @@ theorem radix_wellformed_of_valid_fraction (cf : Bool) {f : Fmt} (hf : StdFmt f)
     (hw : WriteRadix.writeFloat cf feats f fmt o bits len = .ok text) :
     WellFormed r fmt.exponentRadix o.dp o.exp text := by
   obtain ⟨h3, h36⟩ := genericRadices_bounds r hr
-  unfold WriteRadix.writeFloat at hw
+  rw [writeFloat_old] at hw
   rw [hfr, hg] at hw
   simp only [Res.bind] at hw
   cases hl : layoutText (WriteFloat.effFmt feats fmt) feats o r g with
@@ -272,7 +273,7 @@ theorem radix_write_total {f : Fmt} (hf : StdFmt f) {r : Nat} (hr : r ∈ generi
     omega
   obtain ⟨t, ht⟩ := layoutText_total (WriteFloat.effFmt feats fmt) feats o ho (by omega : 2 ≤ r) h36 g hd hne hil
   refine ⟨t, ?_⟩
-  unfold WriteRadix.writeFloat
+  rw [writeFloat_old]
   rw [hfr, hg]
   simp only [Res.bind]
   rw [ht]
@@ -364,7 +365,7 @@ theorem radix_integer_text_full (cf : Bool) {f : Fmt} (hf : StdFmt f) (feats : F
   obtain ⟨hi, hl⟩ := LexVerif.Proof.WriteRadixIntText.layoutText_int (WriteFloat.effFmt feats fmt) feats o ho
     (modelOps f) n d0 t (by rw [hmr]; exact hdig) hd0 (by simp only [List.length_cons] at hlen; omega)
   refine ⟨hi, ?_⟩
-  unfold WriteRadix.writeFloat
+  rw [writeFloat_old]
   rw [hgen, hdt]
   simp only [Res.bind]
   rw [hmr] at hl
@@ -559,6 +560,80 @@ theorem radix_error_bound : C07_radix_error_bound := by
       rcases hf with rfl | rfl
       · simp only [if_true] at this ⊢; omega
       · rw [if_neg (by decide)] at this ⊢; omega
+
+/-! ### 3e. the open positional findings and their repairs
+
+`writeFloat … wf mf`: `wf` = fixes/C07-generic-radix-positional-truncation.diff (digit window starts at the first
+significant digit), `mf` = fixes/C14-generic-digit-options-min-and-literal.diff; defaults `false` = /repo now
+(`WriteRadix.repoHasWindowFix`, `repoHasMinPadFix` select what the driver runs). -/
+
+/-- **root cause of C07-generic-radix-positional-truncation, decided**: the 232-byte window of
+`write_float_nonscientific` starts at the first INTEGER digit; with 232 leading fraction zeros the only significant digit
+falls outside (`"0."`); the repaired window keeps it. -/
+theorem positional_truncation_root_cause :
+    let g : Gen := ⟨[48], List.replicate 232 48 ++ [49], []⟩
+    let o : WOpts := { negBreak := some (-700) }
+    (layoutText fmt3 featsRadix o 3 g).bind (fun t => .ok t.text) = .ok [48, 46]
+    ∧ (layoutTextW false fmt3 featsRadix o 3 g).bind (fun t => .ok t.text)
+        = .ok ([48, 46] ++ List.replicate 232 48 ++ [49])
+    ∧ ¬ PositionalFits g ∧ SigFits g := by
+  refine ⟨by decide +kernel, by decide +kernel, by decide +kernel, by decide +kernel⟩
+
+/-- with the repaired window the layout uses ALL digits whenever at most 232 of them are SIGNIFICANT -/
+theorem radix_layoutW_keeps_all_digits (mf : Bool) (o : WOpts) (ho : o.maxDigits = none) (r : Nat) (g : Gen)
+    (hfit : SigFits g) :
+    nonsciTextW mf o r g = .ok (if mf then
+        nonsciFinish2 (min (ltrimCount 48 (g.ints ++ g.fracs)) (g.ints.length + g.fracs.length - 1)) o
+          (g.ints ++ g.fracs) g.ints.length
+      else nonsciFinish o (g.ints ++ g.fracs) g.ints.length) :=
+  nonsciTextW_keeps_all mf o ho r g hfit
+
+/-- well-formedness for the repaired writers too (every option set, either tail) -/
+theorem radix_wellformed_repaired (mf : Bool) {f : Fmt} (hf : StdFmt f) {r : Nat} (hr : r ∈ genericRadices)
+    (feats : Features) (fmt : Format) (hfr : fmt.mantissaRadix = r) (her : 2 ≤ fmt.exponentRadix) (o : WOpts)
+    {bits : Nat} (hb : bits < f.infBits) (len : Nat) {text : List Nat}
+    (hw : WriteRadix.writeFloat true feats f fmt o bits len true mf = .ok text) :
+    WellFormed r fmt.exponentRadix o.dp o.exp text := by
+  obtain ⟨h3, h36⟩ := genericRadices_bounds r hr
+  rw [writeFloat_W, hfr] at hw
+  cases hg : generate true f r bits with
+  | ok g =>
+    rw [hg] at hw
+    simp only [Res.bind] at hw
+    cases hl : layoutTextW mf (WriteFloat.effFmt feats fmt) feats o r g with
+    | ok t =>
+      rw [hl] at hw
+      simp only at hw
+      split at hw
+      · simp at hw
+      · simp only [Res.ok.injEq] at hw
+        subst hw
+        obtain ⟨hd, hne⟩ := generate_digitBytes hf.fok (by omega) h36 (hf.radix_lt h36) (hf.predOne hr) hb hg
+        have := layoutTextW_wellFormed_all mf (WriteFloat.effFmt feats fmt) feats o (by omega : 2 ≤ r) h36
+          (by rw [effFmt_exponentRadix]; exact her) g hd hne hl
+        rwa [effFmt_exponentRadix] at this
+    | fault => rw [hl] at hw; simp at hw
+    | panic => rw [hl] at hw; simp at hw
+  | fault => rw [hg] at hw; simp [Res.bind] at hw
+  | panic => rw [hg] at hw; simp [Res.bind] at hw
+
+/-- … and they never PANIC either (except for a too short output slice) -/
+theorem radix_write_total_repaired (mf : Bool) {f : Fmt} (hf : StdFmt f) {r : Nat} (hr : r ∈ genericRadices)
+    (feats : Features) (fmt : Format) (hfr : fmt.mantissaRadix = r) (o : WOpts) (ho : o.maxDigits ≠ some 0)
+    {bits : Nat} (hb : bits < f.infBits) (len : Nat) :
+    ∃ t : Text, WriteRadix.writeFloat true feats f fmt o bits len true mf
+      = if t.hi > len then .panic else .ok t.text := by
+  obtain ⟨h3, h36⟩ := genericRadices_bounds r hr
+  obtain ⟨g, hg, hlen⟩ := generate_total hf.fok (by omega : 2 ≤ r) (hf.radix_lt h36) true hf.fuel.1 hf.fuel.2.1 h36 hb
+  obtain ⟨hd, hne⟩ := generate_digitBytes hf.fok (by omega) h36 (hf.radix_lt h36) (hf.predOne hr) hb hg
+  have hil : g.ints.length < halfSize := by
+    have : f.bias + 2 < halfSize := by rcases hf with rfl | rfl <;> decide
+    omega
+  obtain ⟨t, ht⟩ := layoutTextW_total mf (WriteFloat.effFmt feats fmt) feats o ho (by omega : 2 ≤ r) h36 g hd hne hil
+  refine ⟨t, ?_⟩
+  rw [writeFloat_W, hfr, hg]
+  simp only [Res.bind]
+  rw [ht]
 
 end RadixFull
 
